@@ -57,6 +57,12 @@ def expand_sources(prop, tier):
     return out
 
 
+# properties whose statement also speaks of a run that its caller cancels
+# (asyncio.wait_for around co_run()); the others are about runs that end by
+# themselves and report a verdict, or compare two runs instant by instant
+CALLER_MAY_GIVE_UP = {'C01', 'C02', 'C03', 'C05', 'C07', 'C08', 'C09', 'C11', 'C13', 'C14'}
+
+
 def iter_cases(prop, tier, seed, shard, nshards):
     """yields (source label, callable -> Case) for this shard"""
     from .spec import random_spec, SWEEPS, permute_hashes, admissible
@@ -76,6 +82,8 @@ def iter_cases(prop, tier, seed, shard, nshards):
 
                 def thunk(key=key, profile=src['name'], loop_seed=loop_seed, runner=runner):
                     spec = random_spec(key, profile)
+                    if prop not in CALLER_MAY_GIVE_UP and isinstance(spec.get('entry'), dict):
+                        spec['entry'] = 'co_run'
                     bad = admissible(spec, strict=strict)
                     if bad:
                         return ('discarded', bad)
